@@ -7,6 +7,8 @@ CONSTANTS
   MaxPending = 4
   Bursts = TRUE
   Loops = TRUE
+  Dists = TRUE
+  MaskSkip = TRUE
 INVARIANT Inv
 CONSTRAINT EmitAll
 CHECK_DEADLOCK FALSE
